@@ -125,6 +125,7 @@ type timerv struct {
 }
 
 type run struct {
+	fmtPlus bool // %+v in progress
 	e      *engine
 	h      *harnessSpec
 	solver *Solver
